@@ -17,7 +17,7 @@ Proof. exact (cli_by_fact src_facts). Qed.
 Print Assumptions c17_cli_by_source_fact.
 
 Theorem c17_from_root : root_property src_facts.
-Proof. exact (root_of_any src_facts). Qed.
+Proof. exact (root_of_any src_facts eq_refl). Qed.
 Print Assumptions c17_from_root.
 
 Theorem c17_restoring_pushd_suffices : forall F, good F -> full_property F.
@@ -42,12 +42,18 @@ Theorem c17_saved_dot_drifts : forall F W rb rr k es cwd,
 Proof. exact curdir_drift. Qed.
 Print Assumptions c17_saved_dot_drifts.
 
-(* Source-state blocks.  Both defects were repaired in /repo (e5eae7c: pushd saves os.getcwd();
-   a4982c2: nbdiff with only paths compares HEAD with the working tree); the positive statements hold for
-   the regenerated source facts.  Reverting either fix flips the generated fact and breaks the proof below. *)
+(* Source-state blocks.  The defects were repaired in /repo (e5eae7c: pushd saves os.getcwd();
+   a4982c2: nbdiff with only paths compares HEAD with the working tree; and the working-tree side of an entry that
+   git reports as deleted is the missing file whatever sits at the path on disk); the positive statements hold for
+   the regenerated source facts.  Reverting any of the fixes flips the generated fact and breaks a proof below. *)
 Theorem c17_full : full_property src_facts.
-Proof. exact (full_of_good src_facts (conj eq_refl eq_refl)). Qed.
+Proof. exact (full_of_good src_facts (conj eq_refl (conj eq_refl eq_refl))). Qed.
 Print Assumptions c17_full.
+
+Theorem c17_deleted_not_read : forall W cwd p blob d, p <> [] -> is_nb src_facts p = true ->
+  get_stream src_facts W cwd p blob RWorktree true d = (cwd, [], OStream SMissing).
+Proof. exact (fun W cwd p blob d => deleted_not_read src_facts W cwd p blob d eq_refl). Qed.
+Print Assumptions c17_deleted_not_read.
 
 Theorem c17_cli_full : forall is_gitref args, cli_hyps is_gitref args ->
   main_mode src_facts is_gitref args = spec_mode is_gitref args.
